@@ -351,7 +351,11 @@ pub fn bulk_facts(n: u32, mult: u32, recs: u32) -> Facts {
     let mut f = Facts::default();
     f.version = (2024, 2, 29);
     for k in (1..=n).rev() {
-        f.terms.push(TermFact { id: id_of(k), name: format!("n{k}"), obsolete: false, replacement: None });
+        // every 13th node is flagged obsolete, every 26th names its predecessor as replacement
+        // (the Builder path drops the flags: see `expected_facts`)
+        let obsolete = k > 3 && k % 13 == 5;
+        let replacement = if k > 3 && k % 26 == 5 { Some(id_of(k - 1)) } else { None };
+        f.terms.push(TermFact { id: id_of(k), name: format!("n{k}"), obsolete, replacement });
         if k >= 2 {
             let (a, b) = (k / 2, k / 3);
             f.edges.push((id_of(k), id_of(a)));
